@@ -228,7 +228,12 @@ def run_life(case):
                         pass
                     flushed = False
                 elif ev in ("w1", "w2"):
-                    r = recs.build_record(rec_spec(ev, i, single))
+                    # "fresh": every record brings its own (equal) descriptor object, as records of one type from several sources do
+                    recs.FRESH_DESCRIPTORS[0] = bool(case.get("fresh"))
+                    try:
+                        r = recs.build_record(rec_spec(ev, i, single))
+                    finally:
+                        recs.FRESH_DESCRIPTORS[0] = False
                     w.write(r)
                     written.append((("w/one" if (ev == "w1" or single) else "w/two"), i))
                     flushed = False
@@ -566,6 +571,8 @@ def cases(tier, seed):
                 if "wbad" in hist and adapter not in ("stream", "stream.gz", "stream-fileobj", "sqlite", "jsonfile", "split+stream"):
                     continue  # refused writes: Avro's behaviour is C19's known finding; text writers have no notion of a refused record
                 yield {"kind": "life", "adapter": adapter, "hist": list(hist)}
+                if k <= 3 and "wbad" not in hist and sum(1 for e in hist if e in ("w1", "w2")) >= 2:
+                    yield {"kind": "life", "adapter": adapter, "hist": list(hist), "fresh": True}
                 if adapter == "sqlite" and "wbad" not in hist:
                     # commit batches of 2 and 3 records: batch boundaries fall inside these histories
                     yield {"kind": "life", "adapter": adapter, "hist": list(hist), "opt": "batch_size=2"}
